@@ -79,9 +79,9 @@ def audit(prop: str, timeout: int = 900) -> dict:
     res["log"] = out[-4000:]
     # parse "'name' depends on axioms: [a, b]" / "'name' does not depend on any axioms"
     found = {}
-    for m in re.finditer(r"'([^']+)' depends on axioms: \[([^\]]*)\]", out, flags=re.S):
+    for m in re.finditer(r"'(\S+)' depends on axioms: \[([^\]]*)\]", out, flags=re.S):
         found[m.group(1).split(".")[-1]] = {a.strip() for a in m.group(2).replace("\n", " ").split(",") if a.strip()}
-    for m in re.finditer(r"'([^']+)' does not depend on any axioms", out):
+    for m in re.finditer(r"'(\S+)' does not depend on any axioms", out):
         found[m.group(1).split(".")[-1]] = set()
     for n in names:
         if n not in found:
